@@ -496,6 +496,12 @@ func c08Run(e *Env) {
 			if shortTokens && t.Chance(1, 2) {
 				strayTok = append(make([]byte, nObs), 0x50)
 				e.Probe("notification.tokenDiffersOnlyInLength")
+			} else if shortTokens && len(obs) > 0 {
+				// the one 8-byte token that has the same CRC-64 as a registered short token
+				if ct := collidingToken(append(make([]byte, t.Choose(len(obs))), 0x50)); ct != nil {
+					strayTok = ct
+					e.Probe("notification.tokenWithTheSameChecksum")
+				}
 			}
 			w.Queue(&WMsg{Type: TNON, Code: 0x45, MID: w.NextPeerMID(), Token: strayTok, Opts: []WOpt{UintOpt(OptObserve, 9)}, Payload: []byte(fmt.Sprintf("note-%d", noteID))}, "notification(unknown token)")
 			e.Fault("msg.forged")
